@@ -39,7 +39,7 @@ def oracle(ck):
     for _ in range(n):
         N = 3000; fs = 2.0
         g = np.random.default_rng(ck.rng.randint(0, 2 ** 31))
-        q = ck.rng.choice([1, 2, 3])
+        q = ck.rng.choice([1, 2, 3, 4])
         X = [g.standard_normal(N) for _ in range(q)]
         delays = [ck.rng.choice([0, 1, 3]) for _ in range(q)]; gains = [ck.rng.uniform(-2, 2) for _ in range(q)]
         y = sum(gn * np.roll(x, d) for gn, x, d in zip(gains, X, delays)) + ck.rng.choice([0.05, 0.5]) * g.standard_normal(N)
